@@ -291,4 +291,21 @@ CHECKS = {
         "design_ref": "DESIGN.md section 4, C16",
         "min_obs": {"patterns": 3000, "nonces_generated": 100000, "nonces_checked": 100, "padded_segments": 1000},
     },
+    "C18": {
+        "scenarios": [("C18-frame", "vsim"), ("C18-frame", "vreal"), ("C18-wrapper", "vsim"), ("C18-relay", "vreal")],
+        "rule": "(a) framing: PacketOverStreamTunnel over an in-memory stream with chunk schedules {all, 1, 2, 7, 72/73, 47/49, random}; "
+                "sequences of 12-32 datagrams with sizes {0,1,2,12,255,256,1500,65534,65535,random} and contents incl. runs of "
+                "0x00/0xff; 4 concurrent senders with self-describing datagrams; malformed carrier bytes (bad start marker, bad end "
+                "marker, truncation at every offset, length above the reader's buffer); oversized 65536-byte write; (b) relay: "
+                "RunUDPAssociateLoop on kernel sockets with three destinations (two on 127.0.0.1, one on ::1, one replying late), "
+                "interleaved uploads, every reply's SOCKS5 header compared with the replying host; (c) UDPAssociateWrapper round trips "
+                "incl. empty payloads and IPv4-mapped addresses; distinct = (chunk schedule, mode) / case index",
+        "technique": "runtime monitor: datagram-sequence equality through the framing and the relay with self-describing datagrams; "
+                     "error-not-fabrication oracle for malformed frames",
+        "text": "Boundaries, contents, order within the tunnel and addressing are compared datagram by datagram; a shortfall at a kernel "
+                "UDP sink is inconclusive, a foreign/merged/split datagram is a violation.",
+        "note": "trusted: in-memory stream with chunker, kernel loopback UDP for the relay part",
+        "design_ref": "DESIGN.md section 4, C18",
+        "min_obs": {"datagrams_compared": 2000, "replies_checked": 200, "malformed_frames": 10},
+    },
 }
